@@ -218,6 +218,69 @@ def _generator_as_genexp(fn: ast.FunctionDef) -> Optional[ast.GeneratorExp]:
     return g
 
 
+_GEN_OUT = "__yielded__"
+
+
+def _generator_as_list_body(fn: ast.FunctionDef) -> Optional[list]:
+    """body of the function that returns the list of everything the
+    generator function yields (`yield e` -> append, `yield from X` ->
+    extend, `return` -> return the list): what a consumer that exhausts the
+    generator sees.  None if a yield is used as an expression (send)."""
+    cached = getattr(fn, "_as_list_body", 0)
+    if cached != 0:
+        return cached
+    ok = True
+
+    class Rw(ast.NodeTransformer):
+        def visit_FunctionDef(self, n):
+            return n                       # nested functions: their own
+        visit_AsyncFunctionDef = visit_Lambda = visit_FunctionDef
+
+        def visit_Expr(self, n):
+            v = n.value
+            if isinstance(v, ast.Yield) and v.value is not None:
+                call = ast.Call(func=ast.Attribute(
+                    value=ast.Name(id=_GEN_OUT, ctx=ast.Load()),
+                    attr="append", ctx=ast.Load()), args=[v.value],
+                    keywords=[])
+                return ast.copy_location(ast.Expr(value=call), n)
+            if isinstance(v, ast.YieldFrom):
+                call = ast.Call(func=ast.Attribute(
+                    value=ast.Name(id=_GEN_OUT, ctx=ast.Load()),
+                    attr="extend", ctx=ast.Load()), args=[v.value],
+                    keywords=[])
+                return ast.copy_location(ast.Expr(value=call), n)
+            return n
+
+        def visit_Return(self, n):
+            if n.value is not None:
+                return n
+            return ast.copy_location(ast.Return(
+                value=ast.Name(id=_GEN_OUT, ctx=ast.Load())), n)
+
+    import copy
+    body = [Rw().visit(copy.deepcopy(st)) for st in fn.body]
+    for st in body:
+        for x in ast.walk(st):
+            if isinstance(x, (ast.Yield, ast.YieldFrom)):
+                ok = False
+            if isinstance(x, ast.Return) and not (
+                    isinstance(x.value, ast.Name) and x.value.id == _GEN_OUT):
+                ok = False
+    out = None
+    if ok and body:
+        first = ast.copy_location(ast.Assign(
+            targets=[ast.Name(id=_GEN_OUT, ctx=ast.Store())],
+            value=ast.List(elts=[], ctx=ast.Load())), fn.body[0])
+        last = ast.copy_location(ast.Return(
+            value=ast.Name(id=_GEN_OUT, ctx=ast.Load())), fn.body[-1])
+        out = [first] + body + [last]
+        for st in out:
+            ast.fix_missing_locations(st)
+    fn._as_list_body = out
+    return out
+
+
 def _own_jumps(body) -> bool:
     """does a loop body contain a break / continue of *this* loop (jumps
     inside nested loops belong to those)"""
@@ -2966,6 +3029,7 @@ class Interp:
             argenv[va.arg] = bound.get(va.arg, T("tuple")) \
                 if "*" not in bound else tm.unknown(f"varargs {va.arg}")
         newf = self._make_frame(target, argenv, self_cls, frame.depth + 1)
+        body = target.node.body
         if any(isinstance(n, (ast.Yield, ast.YieldFrom))
                for st in target.node.body for n in ast.walk(st)):
             # a generator function: `for x in it: [if c: continue] yield e`
@@ -2993,11 +3057,18 @@ class Interp:
                         break
                 if vals:
                     return T("tuple", *vals)
-                return tm.unknown(f"generator {target.qualname}")
-            return self.eval(gen, newf, live)
+                body = _generator_as_list_body(target.node) if not any(
+                    "contextmanager" in d for d in target.decorators) \
+                    else None          # a context manager: not iterated
+                if body is None:
+                    return tm.unknown(f"generator {target.qualname}")
+                newf = self._make_frame(target, argenv, self_cls,
+                                        frame.depth + 1)
+            else:
+                return self.eval(gen, newf, live)
         self.stack.append(target.qualname)
         try:
-            out = self.exec_block(target.node.body, newf, live)
+            out = self.exec_block(body, newf, live)
         finally:
             self.stack.pop()
         self._note_narrowing(newf, live, out)
